@@ -351,4 +351,139 @@ pub fn generate(seed: u64, thorough: bool, emit: &mut dyn FnMut(String)) {
             emit_for(&mut rng, &text, &p, emit, false);
         }
     }
+    round6(seed, thorough, emit);
+}
+
+/// SIXTH SEEDED ROUND (DESIGN.md section 17).
+/// (O) BLOCK BOUNDARIES: dense univariate polynomials of degree blk-1, blk, blk+1, blk+2, 2 blk+1 (blk = 16 .. 256) with
+///     all coefficients non-zero, non-constant, non-symmetric, through both parsers (degree / number of terms): the
+///     antiderivative coefficient-wise (`integ`, `pinteg`), the definite integral over bounds at and next to +-1 (every
+///     coefficient of the antiderivative contributes), additivity, swap, integrate-then-differentiate; one exponent at
+///     the block values (the divisor k + 1) in two variables.
+/// (P) EXACT RELATIONS: a coefficient exactly equal to the divisor k + 1 (the antiderivative's coefficient is exactly 1),
+///     bounds with F(a) == F(b) exactly (odd integrand about 0 on [-c, c]; (x - 1)^2-type antiderivatives), a == b, a or b
+///     exactly 0, the split point equal to a bound, and the same bounds missed by one ulp / by 2^-40.
+fn round6(seed: u64, thorough: bool, emit: &mut dyn FnMut(String)) {
+    let mut rng = Rng::new(Rng::new(seed ^ 0xC04_0006).next());
+    let near_one = [1.0, -1.0, 1.0 + 2f64.powi(-7), -(1.0 - 2f64.powi(-8)), 0.9375, 0.0, 0.5, 1.0 + 2f64.powi(-52)];
+    let join = |terms: &[(bool, String)]| -> String {
+        let mut s = String::new();
+        for (i, (neg, body)) in terms.iter().enumerate() {
+            if i == 0 {
+                if *neg {
+                    s.push('-');
+                }
+            } else {
+                s.push_str(if *neg { " - " } else { " + " });
+            }
+            s.push_str(body);
+        }
+        s
+    };
+    let mut blocks: Vec<usize> = vec![16, 32, 64, 128, 256];
+    if thorough {
+        blocks.push(1024);
+    }
+    for &blk in &blocks {
+        for deg in [blk - 1, blk, blk + 1, blk + 2, 2 * blk + 1] {
+            let s0 = rng.below(17) as usize;
+            let mut order: Vec<usize> = (0..=deg).collect();
+            if rng.chance(1, 2) {
+                order.reverse();
+            }
+            let terms: Vec<(bool, String)> = order
+                .iter()
+                .map(|&k| {
+                    let c = ((k * k * 3 + 5 * k + s0) % 17) as i64 - 8;
+                    let c = if c == 0 { 9 } else { c };
+                    (c < 0, format!("{}x^{}", c.abs(), k))
+                })
+                .collect();
+            let text = join(&terms);
+            let pre = format!("txt {}", req_string(&text));
+            for parser in 0..2 {
+                if parser == 1 && deg > 258 && !thorough {
+                    continue;
+                }
+                let Some(p) = (if parser == 0 { parse_simple(&text) } else { parse_inter(&text) }) else { continue };
+                let ps = req_any(&p);
+                emit(format!("{pre} integ {ps}"));
+                emit(format!("{pre} pinteg {ps} 1 120"));
+                for _ in 0..3 {
+                    let a = *rng.pick(&near_one);
+                    let b = *rng.pick(&near_one[..5]);
+                    emit(format!("{pre} analytical {ps} {} {}", rbits(a), rbits(b)));
+                }
+                let (a, c, b) = (*rng.pick(&near_one), *rng.pick(&near_one), *rng.pick(&near_one[..5]));
+                emit(format!("{pre} additive {ps} {} {} {}", rbits(a), rbits(c), rbits(b)));
+                emit(format!("{pre} swap {ps} {} {}", rbits(*rng.pick(&near_one)), rbits(*rng.pick(&near_one[..5]))));
+                emit(format!("{pre} chain {ps} 2 i d {}", rbits(*rng.pick(&near_one[..5]))));
+                emit(format!("{pre} chain {ps} 1 i {}", rbits(*rng.pick(&near_one[..5]))));
+            }
+        }
+    }
+    // one exponent at the block values
+    for &blk in &[16usize, 32, 64, 128, 256, 1024] {
+        for e in [blk - 2, blk - 1, blk, blk + 1, 2 * blk] {
+            let t = format!("{}x^{e}y - {}x^{}y^{e} + x", rng.range(2, 9), rng.range(2, 9), e - 1);
+            if let Some(p) = parse_inter(&t) {
+                let ps = req_any(&p);
+                let pre = format!("txt {}", req_string(&t));
+                emit(format!("{pre} pinteg {ps} 1 120"));
+                emit(format!("{pre} pinteg {ps} 1 121"));
+                emit(format!("{pre} chainm {ps} 2 J 1 120 D 1 120 2 1 120 {} 1 121 {}", rbits(*rng.pick(&near_one[..4])), rbits(*rng.pick(&near_one[..4]))));
+            }
+            let t = format!("{}x^{e} - {}x^{} + x - 4", e + 1, rng.range(2, 9), e - 1);
+            if let Some(p) = parse_simple(&t) {
+                let ps = req_any(&p);
+                let pre = format!("txt {}", req_string(&t));
+                emit(format!("{pre} integ {ps}"));
+                emit(format!("{pre} analytical {ps} {} {}", rbits(*rng.pick(&near_one)), rbits(*rng.pick(&near_one[..5]))));
+            }
+        }
+    }
+    // (P) exact relations
+    let nudges = |x: f64| -> Vec<f64> {
+        if x == 0.0 {
+            vec![0.0, -0.0, 5e-324, 2f64.powi(-40)]
+        } else {
+            vec![x, f64::from_bits(x.to_bits() + 1), f64::from_bits(x.to_bits() - 1), x * (1.0 + 2f64.powi(-40))]
+        }
+    };
+    let cases: Vec<(&str, f64, f64)> = vec![
+        ("3x^2 + 2x + 1", -1.0, 2.0),
+        ("4x^3 - 3x^2 + 2x - 1", 0.0, 1.0),
+        ("8x^7 + 16x^15", -1.0, 1.0),
+        ("x^3 - x", -1.5, 1.5),
+        ("x^3 - x", -1.0, 1.0),
+        ("2x - 2", 0.0, 2.0),
+        ("2x - 2", -3.0, 5.0),
+        ("3x^2 - 6x + 2", 0.0, 1.0),
+        ("3x^2 - 6x + 2", 0.0, 2.0),
+        ("5x^4 - 1", 0.0, 1.0),
+        ("x^5 - x^3 + x", -2.0, 2.0),
+        ("0.5x + 0.25", 1.0, 1.0),
+        ("6x^5 + 5x^4 + 4x^3", -1.0, 0.0),
+        ("x^2 + 0x + 3", 0.0, 3.0),
+        ("17x^16 - 33x^32", 0.0, 1.0),
+    ];
+    for (text, a, b) in &cases {
+        for parser in 0..2 {
+            let Some(p) = (if parser == 0 { parse_simple(text) } else { parse_inter(text) }) else { continue };
+            let ps = req_any(&p);
+            let pre = format!("txt {}", req_string(text));
+            emit(format!("{pre} integ {ps}"));
+            for (i, bb) in nudges(*b).iter().enumerate() {
+                emit(format!("{pre} analytical {ps} {} {}", rbits(*a), rbits(*bb)));
+                emit(format!("{pre} swap {ps} {} {}", rbits(*a), rbits(*bb)));
+                let aa = nudges(*a)[i];
+                emit(format!("{pre} analytical {ps} {} {}", rbits(aa), rbits(*b)));
+            }
+            // split point at a bound, at the middle, at 0
+            for c in [*a, *b, a / 2.0 + b / 2.0, 0.0] {
+                emit(format!("{pre} additive {ps} {} {} {}", rbits(*a), rbits(c), rbits(*b)));
+            }
+            emit(format!("{pre} chain {ps} 2 i d {}", rbits(*b)));
+        }
+    }
 }
